@@ -274,3 +274,8 @@ def run(chk):
 
     chk.assume('collections.abc.MutableSequence mixins (pop, extend, clear, reverse, __iadd__) are written in terms of '
                '__getitem__/__setitem__/__delitem__/insert/__len__ (axiom table in callgraph.py)')
+
+    chk.rule('C09-A', 'every argument of the element-tree API is used (an index, a position or a value that is accepted and ignored addresses the wrong child)')
+    from . import forwarding as _fw
+    nd_ = _fw.dead_params(chk, c, 'C09-A', lambda fi: fi.module.name == 'core')
+    chk.floor('parameters examined (C09-A)', nd_, 150)
